@@ -881,6 +881,7 @@ class SourceCatalog:
 
         * pixels outside of the source segment
         * any masked pixels from the input ``mask``
+        * pixels where the input ``data`` is non-finite (NaN and inf)
         * invalid convolved data values (NaN and inf)
         * negative convolved data values; negative pixels (especially
           at large radii) can give image moments that have negative
@@ -889,15 +890,15 @@ class SourceCatalog:
         These arrays are used to derive moment-based properties.
         """
         cutouts = []
-        for convdata_cutout, mask_cutout, segmmask_cutout in zip(
-                self._convdata_cutouts, self._mask_cutouts,
+        for convdata_cutout, datamask_cutout, segmmask_cutout in zip(
+                self._convdata_cutouts, self._cutout_data_masks,
                 self._cutout_segment_masks, strict=True):
 
+            # _cutout_data_masks is the input mask combined with the
+            # non-finite data values, which are always masked
             convdata_mask = (~np.isfinite(convdata_cutout)
-                             | (convdata_cutout < 0) | segmmask_cutout)
-
-            if self._mask is not None:
-                convdata_mask |= mask_cutout
+                             | (convdata_cutout < 0) | segmmask_cutout
+                             | datamask_cutout)
 
             cutout = convdata_cutout.copy()
             cutout[convdata_mask] = 0.0
